@@ -139,6 +139,10 @@ def setup_config(
             store_p = os.path.join(load_dir, str(act), "traj.txt")
             if not os.path.isfile(store_p):
                 return None
+
+        # a crash between appending to the data file and rewriting the
+        # restart file leaves rows of a step that will be done again
+        trim_data_file(config)
     else:
         # no 'current' in toml, start from step 0.
         size = len(config["simulation"]["interfaces"])
@@ -275,6 +279,38 @@ def check_config(config: dict) -> None:
                         + " settings of one of the engines in"
                         + " 'infretis.mdp'!"
                     )
+
+
+def trim_data_file(config: dict) -> None:
+    """Remove data rows that are newer than the restart file.
+
+    A path gets its row when it is replaced, so a row of a path that the
+    restart file still lists as active (or an incomplete last line) was
+    written by a step that did not reach the restart file: it is dropped,
+    the step will be done again.
+
+    Args
+        config: the configuration dictionary of a restart
+    """
+    data_file = config["output"].get("data_file", "")
+    if not os.path.isfile(data_file):
+        return
+    active = {str(act) for act in config["current"]["active"]}
+    with open(data_file, encoding="utf-8") as read:
+        lines = read.readlines()
+    keep = []
+    for line in lines:
+        if not line.startswith("#"):
+            if not line.endswith("\n"):
+                continue
+            row = line.split()
+            if row and row[0] in active:
+                continue
+        keep.append(line)
+    if keep != lines:
+        with open(data_file + ".tmp", "w", encoding="utf-8") as write:
+            write.writelines(keep)
+        os.replace(data_file + ".tmp", data_file)
 
 
 def write_header(config: dict) -> None:
